@@ -200,6 +200,8 @@ def menu(M, seen):
         add({"op": "colnames", "new": list(names)})
         if k >= 2:
             add({"op": "colnames", "new": list(reversed(names))})
+            add({"op": "colnames", "new": list(reversed(names)), "form": "generator"})
+            add({"op": "colnames", "new": list(reversed(names)), "form": "tuple"})
     for nm in sorted(seen - set(names)):
         add({"op": "setitem", "name": nm, "form": "vector"})
     return ops
@@ -401,7 +403,8 @@ def apply_real(d, M, op):
         d.popitem()
         return d, []
     if o == "colnames":
-        d.colnames = list(op["new"])
+        form = op.get("form", "list")
+        d.colnames = (x for x in op["new"]) if form == "generator" else tuple(op["new"]) if form == "tuple" else list(op["new"])
         return d, []
     raise ValueError(o)
 
